@@ -271,9 +271,9 @@ def byte_mutations(b, rng, n_mut, n_trunc):
     return out
 
 
-def nesting_inputs(schema, msg):
+def nesting_inputs(schema, msg, deep=True):
     out = []
-    for d in (50, 99, 100, 101, 120, 1000, 20000):
+    for d in (50, 99, 100, 101, 120, 1000) + ((20000,) if deep else ()):
         out.append((f"groups:{d}", b"\x0b" * d + b"\x0c" * d))
         out.append((f"opengroups:{d}", b"\x0b" * d))
     # LEN nesting along message-typed fields of the schema, as deep as the schema allows, then garbage
@@ -512,6 +512,29 @@ def gen_model_cases(rng, tier, flags):
                         return [ro, o["consumed"]]
                     cases.append(("frame", rc, (lambda o, chk, mx=mx, data=data:
                                                 f"CFrame {mx} {coq_list([str(x) for x in data])} {0 if o['body'] is None else o['body']}"), obs))
+    # mux_recv_proto on a real transient stream between two real Mux instances (hook recv_proto_named)
+    def mf_obs(o):
+        r = o["res"]
+        if "ok" in r:
+            return [0]
+        if "err" in r:
+            e = r["err"]
+            return [13 if "end of stream" in e else 2 if "message too large" in e else 4]
+        return [9]
+    mfb = [dur_ok, b"", b"\x08", b"\xff\xff\xff", dur_ok * 10, bytes(rng.below(256) for _ in range(90))]
+    for mx in [0, 3, 4, 64, 10240]:
+        for body in mfb:
+            for ln in sorted({len(body), len(body) + 1, max(0, len(body) - 1), mx, mx + 1, 0, 0xFFFFFFFF, 0x7FFFFFFF, 1 << 24}):
+                if tier == "quick" and ln not in (len(body), mx + 1, 0xFFFFFFFF) and rng.chance(1, 2):
+                    continue
+                data = ln.to_bytes(4, "little") + body
+                wfs, rfs = rng.choice([(16384, 16384), (3, 2), (1, 1), (64, 5)])
+                rc = {"op": "muxframe", "max": mx, "hex": data.hex(), "wfs": wfs, "rfs": rfs}
+                cases.append(("muxframe", rc, (lambda o, chk, mx=mx, data=data:
+                                               f"CMuxFrame {mx} {coq_list([str(x) for x in data])} {0 if o['body'] is None else o['body']}"), mf_obs))
+    for data in [b"", b"\x01", b"\x01\x00\x00", b"\xff\xff\xff"]:
+        rc = {"op": "muxframe", "max": 100, "hex": data.hex()}
+        cases.append(("muxframe", rc, (lambda o, chk, data=data: f"CMuxFrame 100 {coq_list([str(x) for x in data])} 0"), mf_obs))
     for data in [b"", b"\x01", b"\x01\x00", b"\x01\x00\x00"]:
         rc = {"op": "frame", "max": 100, "hex": data.hex(), "t": "std.Duration"}
         cases.append(("frame", rc, (lambda o, chk, data=data: f"CFrame 100 {coq_list([str(x) for x in data])} 0"),
@@ -578,8 +601,8 @@ def decode_cases(rng, tier, schema, seeds):
     """All fuzz inputs: list of {"op":"decode","t":..,"hex":..,"label":..}."""
     cases = []
     dist = {}
-    cap = 260 if tier == "quick" else 1500
-    n_mut, n_trunc, n_rand = (24, 24, 30) if tier == "quick" else (200, 150, 400)
+    cap = 150 if tier == "quick" else 1500
+    n_mut, n_trunc, n_rand = (16, 16, 20) if tier == "quick" else (200, 150, 400)
 
     def add(t, lab, b):
         cases.append({"op": "decode", "t": t, "hex": b.hex(), "label": lab})
@@ -594,7 +617,7 @@ def decode_cases(rng, tier, schema, seeds):
                 add(t, lab, b)
             for lab, b in byte_mutations(sb, rng, n_mut if k == 0 else n_mut // 3, n_trunc if k == 0 else n_trunc // 3):
                 add(t, lab, b)
-        for lab, b in nesting_inputs(schema, msg):
+        for lab, b in nesting_inputs(schema, msg, deep=(tier != "quick")):
             add(t, lab, b)
         for lab, b in random_inputs(rng, n_rand):
             add(t, lab, b)
@@ -608,6 +631,17 @@ def run(rep):
     t0 = time.time()
 
     # 1. proofs ------------------------------------------------------------------------------
+    # the harness build (cargo, both profiles in parallel) overlaps with the Coq build
+    import threading
+    build_err = []
+
+    def _build(prof):
+        ok, out = common.cargo_build([BIN], prof)
+        if not ok:
+            build_err.append(f"cargo build ({prof}) failed: " + out[-2000:])
+    bths = [threading.Thread(target=_build, args=(prof,)) for prof in PROFILES]
+    for t in bths:
+        t.start()
     po = common.proof_obligations(PROP_FILES)
     if not po["ok"]:
         broken.append("Coq obligations of Properties/C10.v: " + (po["log_tail"] or str(po["hygiene_problems"] or po["bad_axioms"])))
@@ -638,7 +672,10 @@ def run(rep):
                       f"{len(unclassified)} unclassified, {len(bad_refs)} entries naming a missing theorem")
 
     # 3. harness -------------------------------------------------------------------------------
-    build_bins()
+    for t in bths:
+        t.join()
+    if build_err:
+        raise common.MachineryError(build_err[0])
     flags = source_flags()
     meta = harness([{"op": "schema"}, {"op": "seeds", "seed": str(rep.seed), "count": 2 if tier == "quick" else 3}], "dev", shards=1)
     schema, seeds = meta[0], meta[1]["seeds"]
@@ -770,6 +807,19 @@ def run(rep):
                                      "failing_input": {"case": rc, "profile": prof, "impl": o}})
             if kind == "genesis" and json.dumps(o["raw"].get("err")) != json.dumps(o["full"].get("err")) and "panic" in json.dumps(o["full"]):
                 findings.append({"what": f"Genesis::read panicked ({prof})", "failing_input": {"case": rc, "profile": prof, "impl": o}})
+            if kind == "muxframe":
+                r = o["res"]
+                if "panic" in r or "setup_err" in r:
+                    findings.append({"what": f"mux_recv_proto on a transient stream: {json.dumps(r)[:160]} ({prof})",
+                                     "failing_input": {"case": rc, "profile": prof, "impl": o}})
+                elif o["peak"] > rc["max"] + (256 << 10):
+                    findings.append({"what": f"mux_recv_proto with max_size {rc['max']} grew the heap by {o['peak']} bytes ({prof})",
+                                     "failing_input": {"case": rc, "profile": prof, "impl": o}})
+                else:
+                    data = bytes.fromhex(rc["hex"])
+                    if len(data) >= 4 and int.from_bytes(data[:4], "little") > rc["max"] and "message too large" not in r.get("err", ""):
+                        findings.append({"what": f"mux_recv_proto accepted / kept reading after a length prefix above max_size ({prof})",
+                                         "failing_input": {"case": rc, "profile": prof, "impl": o}})
             if kind == "frame":
                 mx = rc["max"]
                 if o["peak"] > mx + 16384:
@@ -781,7 +831,7 @@ def run(rep):
                                      "failing_input": {"case": rc, "profile": prof, "impl": o}})
             cid += 1
     marks['model_impl_done'] = round(time.time() - t0, 1)
-    sample_ids = [c[0] for c in case_index if c[1] in ("ts", "just", "frame", "mux", "genesis")][::max(1, len(case_index) // 5)][:5]
+    sample_ids = [c[0] for c in case_index if c[1] in ("ts", "just", "frame", "muxframe", "mux", "genesis")][::max(1, len(case_index) // 5)][:5]
     mm, samp = common.run_model_cases("C10", "From EC Require Import Lib.Outcome Model.NetInput.", "Model.NetInput.run_case",
                                       coq_cases, shard_size=max(50, len(coq_cases) // 16 + 1), sample_ids=sample_ids)
     if mm:
@@ -880,10 +930,10 @@ def run(rep):
         "rule": "decode fuzz: for every registered decoder (all public ProtoFmt types of zksync_protobuf/roles + the network crate's private wire types through verif::decode_named) "
                 "2-4 valid seeds from the crates' own generators, then (a) every integer field of the seed set to each of 24 boundary values, pairs of integer fields set to pairs of 14 boundary values (messages with 2-8 integer fields), non-minimal varint, empty packed record, "
                 "every field removed / duplicated / emptied, repeated fields x40, byte strings shortened / extended / 300 random bytes, every length prefix set to +-1, 0, 2^31, 2^32, 2^64-1, (b) truncations and single-byte mutations, "
-                "(c) group / LEN nesting to depth 20000, (d) random bytes; run in the dev (overflow checks) and release profile; each decoded value is re-encoded (canonical) and decoded again, and decoded consensus messages / certificates / blocks are additionally run through their verify() (against a committee of the size their signer bitmap claims) and view_number(). "
+                "(c) group / LEN nesting to depth 1000 (quick) / 20000 (thorough), (d) random bytes; run in the dev (overflow checks) and release profile; each decoded value is re-encoded (canonical) and decoded again, and decoded consensus messages / certificates / blocks are additionally run through their verify() (against a committee of the size their signer bitmap claims) and view_number(). "
                 "(mux.Handshake is kept in a HashMap, so its re-encoding order - the rt_differs count - varies from run to run.) "
                 "distinct_nontrivial = distinct (type, bytes) pairs that reached the decoder and returned a value or an error, plus distinct model-correspondence inputs, plus header ranges of the exhaustive sweep. "
-                "model correspondence: boundary grids for Duration/Timestamp/SocketAddr/BitVector/RateLimit/Genesis/justification view/queue selection/recv_proto, random mux frame scripts; "
+                "model correspondence: boundary grids for Duration/Timestamp/SocketAddr/BitVector/RateLimit/Genesis/justification view/queue selection/recv_proto/mux_recv_proto (real stream pair, several frame sizes), random mux frame scripts; "
                 "exhaustive: all 65536 mux headers x stream-table configurations on the real Mux::run",
         "exhaustive_part": f"65536 headers x {len(configs)} stream-table configurations on the real Mux ({headers_run} runs)",
         "input_distribution": {"decode_fuzz_by_mutation_class": dist, "decode_fuzz_types": len(schema["types"]),
@@ -897,10 +947,11 @@ def run(rep):
         "correspondence_mismatches": len(mm) + len(mm2), "predicate_failures": len(findings),
         "wall_breakdown_s": dict(marks, total=round(time.time() - t0, 1)),
         "partial": "Proved: totality (no panic in either overflow profile) of the std_conv readers and builders, GenesisRaw::read/build, the justification view guard and successors, the queue selection function on decoded messages, "
-                   "recv_proto (allocation <= max_size, rejection before the body is read), the mux header dispatch and frame loop for every byte string. "
+                   "recv_proto and mux_recv_proto (allocation <= max_size, rejection before the body is read; both tied to the code, mux_recv_proto on a real transient stream between two Mux instances), the mux header dispatch and frame loop for every byte string; "
+                   "C10_replica_votes_total (= rstep_vote_panics of Proofs/ReplicaCaches.v): a ReplicaCommit / ReplicaTimeout with any field values can only ever cause the view.next() overflow, never an unwrap / expect / index / assert; C10_justification_handling_total (justification verify, high_vote / weight on assembled TimeoutQCs, get_justification never panic). "
                    "NOT proved, only fuzzed: the generated prost decoders and the ProtoFmt::read impls of the other message types, key / signature decoding (blst), snow (noise handshake and transport), "
-                   "tokio, allocation failure, mux_recv_proto on the real transient stream (same steps as recv_proto in the model, no hook to drive it directly), "
-                   "the replica state machine handlers on well-signed extreme messages (only decode + verify() + view_number() + the queue selection function are exercised here; the handlers are modelled under C04/C05/C16), and the accept loop.",
+                   "tokio, allocation failure, "
+                   "on_proposal / on_new_view as whole handlers (their totality rests on the replica correspondence of C05 plus get_justification_np and justification_verify_no_panic cited above; here only decode + verify() + view_number() + the queue selection function are exercised on the real code), and the accept loop.",
     })
     rep.assumptions += [
         "panic-freedom of library code below the modelled functions (prost, quick-protobuf, snow, blst, bit-vec, time) is assumed in the theorems and exercised by the fuzz",
